@@ -17,7 +17,6 @@ Definition cabs1 (z : C) : Q := Qabsb (re z) + Qabsb (im z).
 Definition ccloseb (a b : C) : bool :=
   let tol := atol_default + rtol_default * (cabs1 a + cabs1 b) in
   Qle_bool (Qabsb (re a - re b)) tol && Qle_bool (Qabsb (im a - im b)) tol.
-Definition ccl (a : C) (b : fc) : bool := cfin b && ccloseb a (cf b).
 
 (* ---- cheap numerics for the checker only (never used by the model): a binary64 approximation
    of a rational, computed with the kernel's primitive floats *)
@@ -30,6 +29,9 @@ Definition z2fa (z : Z) : float :=
 Definition q2f (q : Q) : float := PrimFloat.div (z2fa (Qnum q)) (z2fa (Zpos (Qden q))).
 Definition qapx (q : Q) : Q := f2q (q2f q).
 Definition capx (z : C) : C := (qapx (re z), qapx (im z)).
+(* compare a model value with an implementation float pair: the model value is first rounded to binary64
+   (relative 1e-16, far below the tolerance) so that the comparison works on short numbers *)
+Definition ccl (a : C) (b : fc) : bool := cfin b && ccloseb (capx a) (cf b).
 
 (* DFT from the twiddle table, in binary64 like the library: X[k] = sum_t v[t] * tw[k][t] *)
 Fixpoint fdot (v : list float) (r : list fc) (ar ai : float) : fc :=
@@ -127,10 +129,10 @@ Definition check (c : kcase) : bool :=
       let nf := (ubi - lbi)%nat in
       let ch := cache_fft dft ts ij wq nfft ovl fsq sbf psm lbi ubi in
       let chs := chans_of ij in
-      let od := match ovl with Some o => o | None => dense_default_overlap nfft end in
-      let dtbl := map (fun x => mlab_spectrum dft wq x nfft od) dq in
-      let dfxy := dense_fxy dft dq wq nfft ovl fsq in
-      let dcoh := dense_coh dft dq wq nfft ovl fsq in
+      let dtbl := dense_tbl dft dq wq nfft ovl in
+      let dfxy := dense_fxy_tbl dtbl (mlab_scale wq fsq true) nfft in   (* = dense_fxy dft dq wq nfft ovl fsq, table shared *)
+      let dsc := mlab_scale wq fsq sbf in
+      let dcoh := dense_coh_of dfxy in                   (* = dense_coh dft dq wq nfft ovl fsq *)
       let nfull := mlab_numfreqs nfft in
       (length wq =? nfft)%nat && forallb ffinite wv && forallb (forallb ffinite) data &&
       (lbi <=? ubi)%nat && (ubi <=? nfull)%nat &&
@@ -174,7 +176,7 @@ Definition check (c : kcase) : bool :=
                         alli (fun k v => coh_ok (dcoh i j k) v) vals) o_dcoh &&
       forallb (fun e => let '(i, j, vals) := e in
                         (length vals =? nfull)%nat &&
-                        alli (fun k v => ccl (mlab_csd_from (nth j dtbl []) (nth i dtbl []) wq nfft fsq sbf k) v) vals)
+                        alli (fun k v => ccl (mlab_csd_from (nth j dtbl []) (nth i dtbl []) dsc nfft k) v) vals)
               o_csd
   | KSeed nfft ovl fs sbf psm lb ub wv tw seeds seed2d targets o_ffull o_afreqs o_shape o_coh =>
       let fsq := f2q fs in
